@@ -207,7 +207,8 @@ def run_impl(script, retries, delay, reqs, loglevel=None, backend='stub', bauds=
                 res = 'exn=' + C.exn_token(e)[1:]
             finally:
                 signal.alarm(0)
-            out.append(f'{res} dt={clock.ms - t0} trace={trace_tokens(trace)}')
+            port = f' port={srv.serial_port.baudrate}' if backend == 'tty' else ''
+            out.append(f'{res} dt={clock.ms - t0}{port} trace={trace_tokens(trace)}')
     finally:
         signal.signal(signal.SIGALRM, old)
         if loglevel is not None:
